@@ -599,7 +599,9 @@ def check_C11(ctx):
 
 # ------------------------------------------------------------------------------- C13
 
-@prop("C13", "scenario = a UTxO set (1-60 entries; pure ADA, up to 4 policies, up to 30 assets per entry, 32-byte names, shared asset ids whose "
+@prop("C13", "scenario = (a) every UTxO set of <= 3 outputs over three assets in two policies and three lovelace levels from MC_SendAll (TLC "
+             "checks Partition / TxOk / Bookkeeping on the L1 model of the categorizer for every candidate order), under four limit classes, "
+             "sampled in the quick tier; (b) a random UTxO set (1-60 entries; pure ADA, up to 4 policies, up to 30 assets per entry, 32-byte names, shared asset ids whose "
              "summed quantities cross CBOR width boundaries, dust, Byron / pointer / base / enterprise owners with shared keys, empty-but-present "
              "asset bundles) + target address + parameters (cpb 1..34482, max value 150..5000, max tx 1000..16384); every transaction of the "
              "returned batch is really signed; non-trivial = a successful batch judged on all obligations; distinct = (#utxos, #transactions, "
@@ -607,12 +609,39 @@ def check_C11(ctx):
 def check_C13(ctx):
     ctx.assumptions += ["mock witnesses of the returned transactions are replaced by real signatures over the returned body (FixedTransaction::new_from_body_bytes)",
                         "the required signer set (payment keys / Byron addresses of the spent outputs) is recomputed by the validator; a harness that signs otherwise is a tool error",
-                        "no TLA+ model of the greedy categorizer (DESIGN section 6 growth work): the partition / ledger obligations are decided on traces only"]
+                        "L1 model of the greedy categorizer (spec/sys/SendAll.tla) with abstract sizes: TLC checks Partition / TxOk / Bookkeeping on every order in which the "
+                        "HashSet-held candidates can be tried, for every UTxO set of <= 3 outputs; each of its initial states is replayed on the real create_send_all under "
+                        "four limit classes; the number of transactions the real code returns is not compared with the model (sizes are abstract)"]
     if ctx.replay:
         ctx.run_replay()
         return
+    import random
     ctx.exhaustive = False
-    run = ctx.drive("sendall", n=12000 if ctx.thorough else 1200)
+    scn = []
+    for cfg in ("MC_SendAll.cfg", "MC_SendAll_tight.cfg"):
+        r = ctx.mc("MC_SendAll", cfg=cfg, workers=8, timeout=1500)
+        scn += r.by("SCN")
+    if ctx.selftest:
+        # the seeded slips of the model must each violate an invariant (the invariants are not vacuous)
+        for v in ("topup-stays-free", "asset-placed-again", "size-before-topup"):
+            r = vlib.tlc("MC_SendAll", cfg="MC_SendAll_%s.cfg" % v, workdir=os.path.join(ctx.work, "mc_L1_" + v), workers=4, timeout=900)
+            log("[C13] selftest model variant %s: invariant violated = %s" % (v, r.invariant_violated))
+            if not r.invariant_violated:
+                ctx.selftest_ok = False
+    # both configurations emit the same UTxO sets: keep one copy of each (scenario = UTxO set x limit class)
+    seen = set()
+    uniq = []
+    for x in scn:
+        k = json.dumps([x["pp"], x["utxo"]], sort_keys=True)
+        if k not in seen:
+            seen.add(k)
+            uniq.append(x)
+    rnd = random.Random(ctx.seed)
+    want = 20000 if ctx.thorough else 1500
+    if len(uniq) > want:
+        uniq = rnd.sample(uniq, want)
+        ctx.extra["model_scenarios_sampled"] = want
+    run = ctx.drive("sendall", scn=ctx.write_scn(uniq), n=12000 if ctx.thorough else 1200)
     _check_tables(run["trace"])
 
     def corrupt(recs, rnd):
